@@ -241,7 +241,56 @@ func renderConst(c *ssa.Const) string {
 }
 
 // R renders v.
-func (r *Renderer) R(v ssa.Value) string { return r.render(v, 0) }
+func (r *Renderer) R(v ssa.Value) string {
+	s := r.render(v, 0)
+	if r.subst != nil && strings.Contains(s, "len(") {
+		s = r.foldConstLens(s)
+	}
+	return s
+}
+
+// foldConstLens: after parameters were substituted by the caller's terms, len(f(…)) of a module
+// function with a constant result length (a 16-byte header builder) is that constant — the same
+// rendering the expression has when the call is written in place.
+func (r *Renderer) foldConstLens(s string) string {
+	if r.w == nil {
+		return s
+	}
+	if r.w.constLenNames == nil {
+		r.w.constLenNames = map[string]int64{}
+		for _, f := range r.w.ModuleFuncs() {
+			if n, ok := funcConstLen(f, 0); ok {
+				r.w.constLenNames[calleeName(f)] = n
+			}
+		}
+	}
+	for name, n := range r.w.constLenNames {
+		pre := "len(" + name + "("
+		for {
+			i := strings.Index(s, pre)
+			if i < 0 {
+				break
+			}
+			// find the parenthesis closing the call, then the one closing len
+			j := i + len(pre)
+			depth := 1
+			for j < len(s) && depth > 0 {
+				switch s[j] {
+				case '(':
+					depth++
+				case ')':
+					depth--
+				}
+				j++
+			}
+			if depth != 0 || j >= len(s) || s[j] != ')' {
+				break
+			}
+			s = s[:i] + fmt.Sprint(n) + s[j+1:]
+		}
+	}
+	return s
+}
 
 func (r *Renderer) render(v ssa.Value, depth int) string {
 	if v == nil {
@@ -847,6 +896,15 @@ func (r *Renderer) renderCall(c *ssa.CallCommon, depth int) string {
 	case *ssa.Function:
 		return calleeName(f) + "(" + r.args(c.Args, depth) + ")"
 	case *ssa.Builtin:
+		if f.Name() == "len" && len(c.Args) == 1 {
+			if call, ok := c.Args[0].(*ssa.Call); ok {
+				if g := call.Call.StaticCallee(); g != nil {
+					if n, ok := funcConstLen(g, 0); ok {
+						return fmt.Sprint(n)
+					}
+				}
+			}
+		}
 		return f.Name() + "(" + r.args(c.Args, depth) + ")"
 	case *ssa.MakeClosure:
 		return "closure:" + FuncKey(f.Fn.(*ssa.Function)) + "(" + r.args(c.Args, depth) + ")"
@@ -942,4 +1000,64 @@ func qualifierAt(pat string, j int) bool {
 		return false
 	}
 	return strings.HasPrefix(pat[m:], `\(`) || strings.HasPrefix(pat[m:], `(`)
+}
+
+// funcConstLen: every return of the module function f yields (as its only result) a slice of one
+// constant length: a make with a constant size, a slice of a whole local array, or such a value
+// of another module function.
+func funcConstLen(f *ssa.Function, depth int) (int64, bool) {
+	if f == nil || depth > 2 || len(f.Blocks) == 0 || f.Pkg == nil || !inModule(f.Pkg.Pkg.Path()) || f.Signature.Results().Len() != 1 {
+		return 0, false
+	}
+	if _, ok := f.Signature.Results().At(0).Type().Underlying().(*types.Slice); !ok {
+		return 0, false
+	}
+	var n int64 = -1
+	for _, b := range f.Blocks {
+		if len(b.Instrs) == 0 || b == f.Recover {
+			continue
+		}
+		ret, ok := b.Instrs[len(b.Instrs)-1].(*ssa.Return)
+		if !ok {
+			continue
+		}
+		rs := RetResults(ret)
+		if len(rs) != 1 {
+			return 0, false
+		}
+		var l int64 = -1
+		switch x := rs[0].(type) {
+		case *ssa.MakeSlice:
+			if c, ok := x.Len.(*ssa.Const); ok && c.Value != nil {
+				if v, exact := constant.Int64Val(c.Value); exact {
+					l = v
+				}
+			}
+		case *ssa.Slice:
+			if x.Low == nil {
+				if p, ok := x.X.Type().Underlying().(*types.Pointer); ok {
+					if a, ok := p.Elem().Underlying().(*types.Array); ok {
+						if x.High == nil {
+							l = a.Len()
+						} else if c, ok := x.High.(*ssa.Const); ok && c.Value != nil {
+							if v, exact := constant.Int64Val(c.Value); exact && v <= a.Len() {
+								l = v
+							}
+						}
+					}
+				}
+			}
+		case *ssa.Call:
+			if g := x.Call.StaticCallee(); g != nil {
+				if v, ok := funcConstLen(g, depth+1); ok {
+					l = v
+				}
+			}
+		}
+		if l < 0 || (n >= 0 && n != l) {
+			return 0, false
+		}
+		n = l
+	}
+	return n, n >= 0
 }
